@@ -42,7 +42,7 @@ func c13MaxLen(tier string) int {
 	if tier == "thorough" {
 		return 6
 	}
-	return 5
+	return 4
 }
 
 func c13Total(maxLen int) int {
@@ -80,6 +80,9 @@ func c13String(i int, maxLen int) string {
 
 func c13RandomLong(c *core.C) string {
 	l := 7 + c.Rand.IntN(8)
+	if !c.Thorough() {
+		l = 5 + c.Rand.IntN(6) // quick: exhaustive up to 4 components, random 5..10 beyond
+	}
 	comps := make([]string, l)
 	for k := range comps {
 		comps[k] = c13Alphabet[c.Rand.IntN(len(c13Alphabet))]
@@ -597,7 +600,7 @@ func init() {
 		ID:    "C13",
 		Level: "exploration",
 		Rule: "exhaustive enumeration of path strings over the component alphabet {a, b.proto, ., .., '', a.b, ...} joined by '/', with and without a leading '/', " +
-			"1..5 components (quick) / 1..6 (thorough), plus random strings of 7..14 components; every string is driven through get/stat/walk/isempty/put/put-atomic/copypath/delete/deleteall, " +
+			"1..4 components (quick) / 1..6 (thorough), plus random strings of 5..10 (quick) / 7..14 (thorough) components; every string is driven through get/stat/walk/isempty/put/put-atomic/copypath/delete/deleteall, " +
 			"untar/unzip (strip 0..2), NewFileNode, filelock and the protoplugin response writer on 16 bucket kinds; a case is distinct/non-trivial per distinct path string; " +
 			"'shape' counts distinct (absolute, levels climbed, remaining components) classes; second part: CLI boundary cases (config-supplied directories, --path values, plugin names)",
 		Assumptions: []string{
@@ -625,6 +628,6 @@ func init() {
 				c13CLI(c, idx-n-extra)
 			}
 		},
-		Required: []string{"paths", "escaping_paths", "outside_snapshots", "archive_ops", "rejections_checked"},
+		Required: []string{"paths", "escaping_paths", "outside_snapshots", "archive_ops", "rejections_checked", "cli_runs", "cli_escaping_runs"},
 	})
 }
